@@ -64,6 +64,8 @@ def detector_view(det, take):
     if not take or getattr(det, "_kdqtree", True) is None:
         return False, []
     cols = getattr(det, "_input_cols", None)
+    if cols is not None and len(set(map(str, cols))) < len(cols):
+        return False, []          # columns that share one label cannot name a split axis: nothing to compare the labels with
     df = det.to_plotly_dataframe()
     rows, _ = rows_of(df, list(cols) if cols is not None else None, True)
     return True, rows
